@@ -24,13 +24,15 @@ func c10Alphabet() *term.Alphabet {
 		Leaves: map[term.Ty][]*term.Term{
 			B: {term.Const(true), term.Const(false), term.Var("b", B), {K: term.KConst, Val: int64(1), Lit: "1", Ty: B}},
 			I: {term.Const(1), term.Const(0), term.Var("n", I), {K: term.KConst, Val: "1", Lit: `"1"`, Ty: I}},
+			term.TSL: {term.Const([]string{})},
 		},
 		Ops: []term.OpSig{
 			sig("and", B, B, B), sig("or", B, B, B), sig("not", B, B),
 			{Name: "if", Args: []term.Ty{B, I, I}, Ret: I, If: true},
 			sig("=", B, I, I), sig("+", I, I, I), sig("/", I, I, I),
 			sig("s1", I, I), sig("m1", I, I),
-			sig("a1", I, I), sig("o1", I), sig("u1", I, I),
+			sig("a1", I, I), sig("o1", I), sig("u1", I, I), sig("b2", I, I, I),
+			sig("in", B, I, term.TSL),
 			sig("boom", B),
 		},
 	}
@@ -73,6 +75,18 @@ func (s *c10state) fns() map[string]ref.CustomFn {
 		"a1":   stateful("a1"),
 		"o1":   stateful("o1"),
 		"u1":   stateful("u1"),
+		"b2": func(a []interface{}) (interface{}, error) {
+			s.ord["b2"]++
+			if len(a) != 2 {
+				return nil, ref.ErrBuiltin
+			}
+			x, ok1 := a[0].(int64)
+			y, ok2 := a[1].(int64)
+			if !ok1 || !ok2 {
+				return nil, ref.ErrBuiltin
+			}
+			return x - y + 100*s.ord["b2"], nil
+		},
 		"boom": func([]interface{}) (interface{}, error) { return nil, ref.ErrOp },
 	}
 }
@@ -372,7 +386,7 @@ func c10(r *rep.Run) {
 }
 
 func sameOrd(a, b map[string]int64) bool {
-	for _, k := range []string{"a1", "o1", "u1"} {
+	for _, k := range []string{"a1", "o1", "u1", "b2"} {
 		if a[k] != b[k] {
 			return false
 		}
@@ -394,7 +408,7 @@ func countConsts(t *term.Term) int {
 func stateful(t *term.Term) bool {
 	s := false
 	t.Walk(func(n *term.Term) {
-		if n.K == term.KOp && (n.Name == "a1" || n.Name == "o1" || n.Name == "u1") {
+		if n.K == term.KOp && (n.Name == "a1" || n.Name == "o1" || n.Name == "u1" || n.Name == "b2") {
 			s = true
 		}
 	})
